@@ -8,21 +8,13 @@ import os
 
 VERIF = os.path.dirname(os.path.dirname(os.path.abspath(__file__)))
 
-# property id -> (category, technique, level text, level note, design ref)
-CLAIMS: dict[str, tuple[str, str, str, str, str]] = {}
-NOT_APPLICABLE: dict[str, str] = {}
-
-
-def claim(pid: str, category: str, technique: str, text: str, note: str, ref: str) -> None:
-    CLAIMS[pid] = (category, technique, text, note, ref)
-
-
-def _load_table() -> None:
-    from . import manifest_table  # noqa: F401  (fills CLAIMS / NOT_APPLICABLE)
+from sa.manifest_table import CLAIMS, NOT_APPLICABLE
 
 
 def build() -> dict:
-    _load_table()
+    from sa.manifest_table import finalize
+
+    finalize()
     checks = []
     for pid in sorted(CLAIMS):
         category, technique, text, note, ref = CLAIMS[pid]
